@@ -380,6 +380,7 @@ type FuncContract struct {
 	Asserts       []*Clause
 	OnCall        map[string][]*Clause // per function-valued parameter: obligation at each call (args: arg0, arg1, ...)
 	AssumeCB      map[string][]*Clause // per function-valued parameter: assumed of every result (args: arg0.., result)
+	CountCall     map[string][]*Clause // per function-valued parameter: ghost counter (Label) += 1 at each call where the clause holds
 	InlineCallees map[string]bool
 	UseAll        []string // lemmas assumed in universally quantified form
 }
@@ -401,7 +402,7 @@ var clauseKeywords = map[string]bool{
 	"property": true, "model": true, "requires": true, "ensures": true, "loop": true,
 	"inline": true, "trusted": true, "safety": true, "pure": true, "assigns": true,
 	"let": true, "note": true, "method": true, "body": true, "use": true, "opt": true,
-	"assert": true, "purearg": true, "olet": true, "assumecb": true, "oncall": true, "inlinecall": true, "useall": true,
+	"assert": true, "purearg": true, "olet": true, "assumecb": true, "countcall": true, "oncall": true, "inlinecall": true, "useall": true,
 }
 
 // ParseContractFile reads one verif_contracts.go file.
@@ -732,6 +733,21 @@ func (cs *ContractSet) addClause(c *FuncContract, kw, text, file string, line in
 			c.OnCall = map[string][]*Clause{}
 		}
 		c.OnCall[fs[0]] = append(c.OnCall[fs[0]], cl)
+	case "countcall":
+		// countcall <param> <ghost> <cond>: ghost(<ghost>) counts the calls of <param> for which <cond> holds
+		fs := strings.Fields(text)
+		if len(fs) < 3 {
+			return fmt.Errorf("countcall <param> <ghost> <expr>")
+		}
+		rest := strings.TrimSpace(strings.TrimPrefix(strings.TrimSpace(text[len(fs[0]):]), fs[1]))
+		e, err := ParseExpr(rest)
+		if err != nil {
+			return err
+		}
+		if c.CountCall == nil {
+			c.CountCall = map[string][]*Clause{}
+		}
+		c.CountCall[fs[0]] = append(c.CountCall[fs[0]], &Clause{Kind: "countcall", Label: fs[1], Text: rest, E: e, File: file, Line: line})
 	case "assumecb":
 		fs := strings.Fields(text)
 		if len(fs) < 2 {
